@@ -215,10 +215,20 @@ func main() {
 			}
 			return wire.Hex(b)
 		case "pad":
+			// projected observables of WritePadding(n): the bytes it puts on the stream (count only: the property
+			// leaves chunking and fill bytes free), the count it returns, and what ReadData makes of them
+			// (padding must be invisible: no chunk, clean EOF)
 			n, _ := strconv.Atoi(a[1])
 			var buf bytes.Buffer
-			encapsulation.WritePadding(&buf, n)
-			return wire.Hex(buf.Bytes())
+			k, err := encapsulation.WritePadding(&buf, n)
+			if err != nil {
+				return "!padding-error " + err.Error()
+			}
+			script := []entry(nil)
+			if len(a) > 2 {
+				script = parseScript(a[2])
+			}
+			return "len=" + strconv.Itoa(buf.Len()) + " ret=" + strconv.Itoa(k) + " " + readAll(buf.Bytes(), script)
 		case "max":
 			n, _ := strconv.Atoi(a[1])
 			return strconv.Itoa(encapsulation.MaxDataForSize(n))
